@@ -167,9 +167,9 @@ macro_rules! u_drop_second { ($name:ident, $A:ty, $B:ty, $mkb:expr, $kb:expr, $n
 u_from_first!(c12_union_from_first__tr_tr16, Tr, Tr16, Tr::new());
 // @h props=C12,C01,C04 fuc=ArcUnion::from_second,ArcUnion::is_first,ArcUnion::is_second
 u_from_second!(c12_union_from_second__tr_tr16, Tr, Tr16, Tr16::new());
-// @h props=C12,C11 fuc=ArcUnion::borrow,ArcUnion::as_first,ArcUnion::as_second,ArcBorrow::from_ptr
+// @h props=C12,C11,C01 fuc=ArcUnion::borrow,ArcUnion::as_first,ArcUnion::as_second,ArcBorrow::from_ptr
 u_acc_first!(c12_union_acc_first__tr_tr16, Tr, Tr16, Tr::new());
-// @h props=C12,C11 fuc=ArcUnion::borrow,ArcUnion::as_first,ArcUnion::as_second,ArcBorrow::from_ptr
+// @h props=C12,C11,C01 fuc=ArcUnion::borrow,ArcUnion::as_first,ArcUnion::as_second,ArcBorrow::from_ptr
 u_acc_second!(c12_union_acc_second__tr_tr16, Tr, Tr16, Tr16::new());
 // @h props=C12,C04 fuc=ArcUnion::strong_count,ArcUnionBorrow::strong_count,ArcBorrow::strong_count
 u_count_first!(c12_union_count_first__tr_tr16, Tr, Tr16, Tr::new());
@@ -189,9 +189,9 @@ u_drop_second!(c12_union_drop_second__tr_tr16, Tr, Tr16, Tr16::new(), 2, 1);
 u_from_first!(c12_union_from_first__tr8_tr8, Tr8, Tr8, Tr8::new());
 // @h props=C12 fuc=ArcUnion::from_second,ArcUnion::is_first,ArcUnion::is_second
 u_from_second!(c12_union_from_second__tr8_tr8, Tr8, Tr8, Tr8::new());
-// @h props=C12,C11 tier=thorough fuc=ArcUnion::borrow,ArcUnion::as_first,ArcUnion::as_second,ArcBorrow::from_ptr
+// @h props=C12,C11,C01 tier=thorough fuc=ArcUnion::borrow,ArcUnion::as_first,ArcUnion::as_second,ArcBorrow::from_ptr
 u_acc_first!(c12_union_acc_first__tr8_tr8, Tr8, Tr8, Tr8::new());
-// @h props=C12,C11 fuc=ArcUnion::borrow,ArcUnion::as_first,ArcUnion::as_second,ArcBorrow::from_ptr
+// @h props=C12,C11,C01 fuc=ArcUnion::borrow,ArcUnion::as_first,ArcUnion::as_second,ArcBorrow::from_ptr
 u_acc_second!(c12_union_acc_second__tr8_tr8, Tr8, Tr8, Tr8::new());
 // @h props=C12 tier=thorough fuc=ArcUnion::strong_count,ArcUnionBorrow::strong_count,ArcBorrow::strong_count
 u_count_first!(c12_union_count_first__tr8_tr8, Tr8, Tr8, Tr8::new());
@@ -211,9 +211,9 @@ u_drop_second!(c12_union_drop_second__tr8_tr8, Tr8, Tr8, Tr8::new(), 1, 1);
 u_from_first!(c12_union_from_first__z_s1, Z, S1, Z);
 // @h props=C12 fuc=ArcUnion::from_second,ArcUnion::is_first,ArcUnion::is_second
 u_from_second!(c12_union_from_second__z_s1, Z, S1, S1::any());
-// @h props=C12,C11 tier=thorough fuc=ArcUnion::borrow,ArcUnion::as_first,ArcUnion::as_second,ArcBorrow::from_ptr
+// @h props=C12,C11,C01 tier=thorough fuc=ArcUnion::borrow,ArcUnion::as_first,ArcUnion::as_second,ArcBorrow::from_ptr
 u_acc_first!(c12_union_acc_first__z_s1, Z, S1, Z);
-// @h props=C12,C11 fuc=ArcUnion::borrow,ArcUnion::as_first,ArcUnion::as_second,ArcBorrow::from_ptr
+// @h props=C12,C11,C01 fuc=ArcUnion::borrow,ArcUnion::as_first,ArcUnion::as_second,ArcBorrow::from_ptr
 u_acc_second!(c12_union_acc_second__z_s1, Z, S1, S1::any());
 // @h props=C12 tier=thorough fuc=ArcUnion::strong_count,ArcUnionBorrow::strong_count,ArcBorrow::strong_count
 u_count_first!(c12_union_count_first__z_s1, Z, S1, Z);
@@ -233,9 +233,9 @@ u_drop_second!(c12_union_drop_second__z_s1, Z, S1, S1::any(), 0, 0);
 u_from_first!(c12_union_from_first__tr64_z, vrt::Tr64, Z, vrt::Tr64::new());
 // @h props=C12 tier=thorough fuc=ArcUnion::from_second,ArcUnion::is_first,ArcUnion::is_second
 u_from_second!(c12_union_from_second__tr64_z, vrt::Tr64, Z, Z);
-// @h props=C12,C11 tier=thorough fuc=ArcUnion::borrow,ArcUnion::as_first,ArcUnion::as_second,ArcBorrow::from_ptr
+// @h props=C12,C11,C01 tier=thorough fuc=ArcUnion::borrow,ArcUnion::as_first,ArcUnion::as_second,ArcBorrow::from_ptr
 u_acc_first!(c12_union_acc_first__tr64_z, vrt::Tr64, Z, vrt::Tr64::new());
-// @h props=C12,C11 tier=thorough fuc=ArcUnion::borrow,ArcUnion::as_first,ArcUnion::as_second,ArcBorrow::from_ptr
+// @h props=C12,C11,C01 tier=thorough fuc=ArcUnion::borrow,ArcUnion::as_first,ArcUnion::as_second,ArcBorrow::from_ptr
 u_acc_second!(c12_union_acc_second__tr64_z, vrt::Tr64, Z, Z);
 // @h props=C12 tier=thorough fuc=ArcUnion::strong_count,ArcUnionBorrow::strong_count,ArcBorrow::strong_count
 u_count_first!(c12_union_count_first__tr64_z, vrt::Tr64, Z, vrt::Tr64::new());
@@ -243,7 +243,7 @@ u_count_first!(c12_union_count_first__tr64_z, vrt::Tr64, Z, vrt::Tr64::new());
 u_count_second!(c12_union_count_second__tr64_z, vrt::Tr64, Z, Z);
 // @h props=C12 tier=thorough fuc=ArcUnion::clone,ArcBorrow::clone_arc,ArcUnion::ptr_eq
 u_clone_first!(c12_union_clone_first__tr64_z, vrt::Tr64, Z, vrt::Tr64::new());
-// @h props=C12 tier=thorough fuc=ArcUnion::clone,ArcBorrow::clone_arc,ArcUnion::ptr_eq
+// @h tier=manual props=C12 fuc=ArcUnion::clone,ArcBorrow::clone_arc,ArcUnion::ptr_eq note="runs out of memory in CBMC (37 GB) in some builds although its siblings take a minute; manual runs only"
 u_clone_second!(c12_union_clone_second__tr64_z, vrt::Tr64, Z, Z);
 // @h props=C12,C05 tier=thorough fuc=ArcUnion::drop,Arc::from_raw,Arc::drop
 u_drop_first!(c12_union_drop_first__tr64_z, vrt::Tr64, Z, vrt::Tr64::new(), 3, 1);
